@@ -42,7 +42,9 @@ CHECKS = {
     "C08": dict(
         text="Clauses C08_a-d (presence from first add to latest snapshot id, one '+' per pair and no '-', ids = accepted "
              "add instants) as TLC invariants of the model in accumulative mode and as verdict of trace validation of "
-             "replayed states and random histories on edge_removal=False graphs of both classes.",
+             "replayed states and random histories on edge_removal=False graphs of both classes; the C02 query battery "
+             "(clauses C02_* of spec/Queries.tla) is recorded on accumulative states as well ('all snapshot queries of "
+             "C02 follow that presence').",
         design="4 C08", technique="TLA+ model + TLC invariants; two-way conformance by TLC trace validation"),
 }
 
@@ -66,7 +68,8 @@ CHECKS["C16"] = dict(
     text="spec/Derived.tla defines the presence of to_directed / to_undirected(reciprocal) results; TLC judges derive-lines "
          "recorded for every reachable state of the bounded model (reciprocal pairs with different timelines, self-loops, "
          "isolated attributed nodes, nested mutable attribute values): class, presence, all nodes kept, source raw-identical "
-         "after the call and after the harness mutated the copy, C02-C05 on the result.",
+         "after the call and after the harness mutated the copy, C02-C05 on the result; accumulative sources are "
+         "converted as well (known finding KF8 explains exactly the result that has the presence of the stored intervals).",
     design="4 C16", technique="TLA+ derived-graph operators; TLC validation of recorded derive lines on TLC-generated states")
 
 CHECKS["C09"] = dict(
@@ -141,7 +144,9 @@ CHECKS["C20"] = dict(
          "one-label case according to reachability (declarative path set of spec/Paths.tla inside the slice), and "
          "sliding_delta_conformity = the pointwise calls stamped t+delta for exactly the ids with t+delta before the last id. The "
          "labelled graphs are the TLC-enumerated path domain with seeded label assignments plus seeded random graphs; TLC judges the "
-         "logged scores (scaled by 10^6, tolerance 2). The numeric value in general is not recomputed.",
+         "logged scores (scaled by 10^6, tolerance 2). The numeric value in general is not recomputed. Undirected and "
+         "directed graphs, label values of several types (falsy ones included), analyses repeated on the same object "
+         "after it was changed.",
     design="4 C20", technique="TLC-enumerated graph domain replayed into the real functions; TLC validation of metamorphic and reachability clauses in TLA+")
 
 NOT_YET = {}
